@@ -101,6 +101,24 @@ def run_glexsort(ctx):
                 ctx.notes.append("glexsort enumeration stopped early: time budget")
                 break
     ctx.count("glexsort.exhaustive", ctx.evaluations)
+    # key matrices stored in narrow integer dtypes whose column sums leave the dtype: the total degree must be formed
+    # in a wide type
+    for _ in range(40 if ctx.quick else 400):
+        dt, top = gen.choice(rng, [("uint8", 255), ("int8", 127), ("uint16", 65535), ("int16", 32767)])
+        rows = int(rng.integers(2, 5))
+        ncols = int(rng.integers(2, 9))
+        keys = rng.integers(top // 3, top + 1, size=(rows, ncols)).astype(dt)
+        keys[:, 0] = rng.integers(0, 4, size=rows)          # one column of small degree
+        for graded, reverse in ((True, False), (True, True), (False, False)):
+            cols = keys.T.astype(int).tolist()
+            want = ref_glexsort(cols, graded, reverse)
+            got = numpoly.glexsort(keys, graded=graded, reverse=reverse).tolist()
+            ctx.evaluations += 1
+            ctx.count("glexsort.narrow")
+            if got != want:
+                ctx.fail({"kind": "glexsort", "keys": keys.astype(int).tolist(), "dtype": dt, "graded": graded, "reverse": reverse},
+                         f"glexsort on {dt} keys {keys.astype(int).tolist()} returned {got}, the (graded)(reverse) lexicographic order is {want}",
+                         ["op:glexsort", "narrow-keys", "graded" if graded else "plain"])
     # random, tie-heavy, wide
     for _ in range(60 if ctx.quick else 600):
         rows = int(rng.integers(1, 5))
@@ -306,8 +324,8 @@ def replay(ctx, case):
     n = len(ctx.failures)
     kind = case["kind"]
     if kind == "glexsort":
-        keys = numpy.array(case["keys"])
-        want = ref_glexsort(keys.T.tolist(), case["graded"], case["reverse"])
+        keys = numpy.array(case["keys"], dtype=case.get("dtype", int))
+        want = ref_glexsort(keys.T.astype(int).tolist(), case["graded"], case["reverse"])
         got = numpoly.glexsort(keys, graded=case["graded"], reverse=case["reverse"]).tolist()
         return None if got == want else f"glexsort returned {got[:20]}…, expected {want[:20]}…"
     if kind == "glexindex":
@@ -323,10 +341,10 @@ def replay(ctx, case):
 def shrink(ctx, case):
     if case.get("kind") != "glexsort":
         return case
-    keys = numpy.array(case["keys"])
+    keys = numpy.array(case["keys"], dtype=case.get("dtype", int))
 
     def bad(k):
-        want = ref_glexsort(k.T.tolist(), case["graded"], case["reverse"])
+        want = ref_glexsort(k.T.astype(int).tolist(), case["graded"], case["reverse"])
         return numpoly.glexsort(k, graded=case["graded"], reverse=case["reverse"]).tolist() != want
     changed = True
     while changed and keys.shape[1] > 2:
